@@ -112,6 +112,7 @@ class State:
         self.exc: SExc | None = None
         self.ev_len = z3.IntVal(0)
         self.ev_arr = z3.Const(sym.fresh_name("events"), SeqArrS)
+        self.ev_set = z3.K(Val, z3.BoolVal(False))  # ghost: the SET of entries logged since the verified function was entered (spec: logged(e))
         self.ghost: dict[str, object] = {}
         self.written_fields: set[str] = set()
         self.written_containers: list = []  # ref terms
@@ -125,6 +126,8 @@ class State:
         s.heap = self.heap.copy()
         s.exc = self.exc
         s.ev_len, s.ev_arr = self.ev_len, self.ev_arr
+        s.ev_set = self.ev_set
+        s.alloc_log = getattr(self, "alloc_log", ())
         s.ghost = dict(self.ghost)
         if "__distinct__" in s.ghost:
             s.ghost["__distinct__"] = dict(s.ghost["__distinct__"])  # facts proved under one branch's assumptions must not leak to siblings
@@ -153,6 +156,7 @@ class State:
         n = z3.Int(sym.fresh_name("alloc"))
         self.assume(n == r + 1)
         self.heap.next_ref = n
+        self.alloc_log = getattr(self, "alloc_log", ()) + (r,)  # provenance (python-level): references allocated along this path, in order
         return r
 
     # ---- object fields ---------------------------------------------------------------------
@@ -258,6 +262,14 @@ class State:
         ev = Val.tup(sym.vl_of([Val.str(z3.StringVal(name))] + vals))
         self.ev_arr = z3.Store(self.ev_arr, self.ev_len, ev)
         self.ev_len = self.ev_len + 1
+        self.ev_set = z3.Store(self.ev_set, ev, z3.BoolVal(True))
+
+    def havoc_ev_set(self):
+        """unknown entries may have been logged: the set only grows"""
+        new = z3.Const(sym.fresh_name("evset"), self.ev_set.sort())
+        e = sym.fresh_val("e")
+        self.assume(z3.ForAll([e], z3.Implies(z3.Select(self.ev_set, e), z3.Select(new, e)), patterns=[z3.Select(new, e)]))
+        self.ev_set = new
 
     # ---- solver ----------------------------------------------------------------------------
     def check(self, extra=(), timeout_ms=5000):
